@@ -7,7 +7,7 @@ WT=/tmp/mut/$A; RES=/tmp/mut/${A}_result; B=/tmp/mut/${A}_cbuild
 LIBS="-lgmp -lz -lbz2 -lm -lpthread"
 run_demo() { # $1 = build dir ; returns demo exit code
   if [ -f $RES/demo$N.c ] && [ ! -f $RES/demo$N.sh ]; then
-    gcc -w -I$1 -I$1/qsopt_ex $RES/demo$N.c $1/libqsx.a $LIBS -o $1/demo$N || return 99
+    gcc -w -I$RES -I$1 -I$1/qsopt_ex $RES/demo$N.c $1/libqsx.a $LIBS -o $1/demo$N || return 99
     ( cd $1 && timeout 300 ./demo$N > demo$N.out 2>&1 ); return $?
   elif [ -f $RES/demo$N.sh ]; then
     ARG=$1/esolver/esolver; grep -qi "builddir\|build dir" $RES/demo$N.sh && ARG=$1
